@@ -368,9 +368,35 @@ def gen_very_long(rng):
     return ["very long path (4097..20000 vertices)", "tolerance comparable to the deviations"], pts, tol
 
 
+def gen_function_graph(rng):
+    """A sampled waveform: x strictly increasing (sorted input), 24..400 samples, swings that are much
+    steeper than the sample spacing - a vertex between the chord ends in x may still project beyond a
+    chord END, so 'distance to the carrier line' and 'distance to the segment' part ways."""
+    n = rng.choice((24, 25, 30, 60, 181, 400))
+    dx = rng.choice((0.02, 0.05, 0.1, 1.0))
+    amp = dx * rng.choice((20, 50, 100, 400))
+    x = rng.uniform(-5, 5)
+    pts = []
+    style = rng.randrange(3)
+    for i in range(n):
+        x += dx * rng.uniform(0.5, 1.5)
+        if style == 0:
+            y = amp * math.sin(i * rng.choice((1.3, 2.1, 2.9))) + rng.gauss(0, amp * 0.01)
+        elif style == 1:
+            y = amp * (1 if i % 2 else -1) * rng.uniform(0.6, 1.0)
+        else:
+            y = amp * rng.uniform(-1, 1)
+        pts.append([x, y])
+    tol = dx * rng.choice((0.5, 1.0, 1.2, 3.0, 10.0))
+    return ["function graph: x strictly increasing, steep swings (sorted input)",
+            "tolerance comparable to the deviations"], pts, tol
+
+
 def gen_path(rng):
     if rng.random() < 0.05:
         return gen_long_chord(rng)
+    if rng.random() < 0.06:
+        return gen_function_graph(rng)
     if rng.random() < 0.08:
         return gen_cluster(rng)
     if rng.random() < 0.10:
@@ -543,6 +569,7 @@ def run(ctx):
         ctx.need(cls, 50)
     ctx.need("spike about one tolerance long, path doubles back (distance to the chord END decides)", 200)
     ctx.need("very long path (4097..20000 vertices)", 8)
+    ctx.need("function graph: x strictly increasing, steep swings (sorted input)", 150)
     ctx.need("cluster straddles the coordinate axes", 150)
     ctx.need("cluster away from the axes", 150)
     ctx.need("monitor:supersample evaluated", 3_000)
